@@ -63,5 +63,5 @@ Lemma good_examples :
   cls_where 0 good1 T3 = 0 /\ defined_on good1 T3 = true /\ spec_rows good1 T3 = [0; 1; 1] /\
   spec_vals good1 T3 = [0; 1; 1] /\
   cls_where 0 good2 T3 = 0 /\ defined_on good2 T3 = true /\ spec_rows good2 T3 = [1; 0; 0] /\
-  spec_vals good2 T3 = [1; 0; 2].
+  spec_vals good2 T3 = [1; 2; 2].
 Proof. vm_compute. repeat split. Qed.
